@@ -5,6 +5,10 @@ import EpgVerif.Props.C03Gen
 import EpgVerif.Props.C03E
 import EpgVerif.Props.C03Prog
 import EpgVerif.Props.C03Diag
+import EpgVerif.Props.C03EDiag
+import EpgVerif.Props.C03R
+import EpgVerif.Props.C03Phi
+import EpgVerif.Props.C03P
 open EpgVerif.Props.C03
 #print axioms order2_accumulates_every_term_once
 #print axioms hessian_symm
@@ -32,3 +36,9 @@ open EpgVerif.Props.C03
 #print axioms hessian_diag_exact
 #print axioms step1T
 #print axioms step1Shift
+#print axioms E_diag_partial_exact_nl
+#print axioms Phi_mixed_partial_exact_nl
+#print axioms R_mixed_zero
+#print axioms R_mixed_partial_exact_nl
+#print axioms P_mixed_symm
+#print axioms P_mixed_partial_exact_nl
